@@ -594,6 +594,14 @@ func (r *renderer) expandRaw(s string) string {
 				out.WriteString("yield(" + r.expandRaw(a) + ")")
 			}
 			i += n
+		} else if a, n, ok := arg("$YIELDFN"); ok {
+			// the API function used as a VALUE (not supported: the compiler only sees direct calls)
+			if r.mode == "S" {
+				out.WriteString(r.co + "Yield[" + r.expandRaw(a) + "]")
+			} else {
+				out.WriteString("yield")
+			}
+			i += n
 		} else if strings.HasPrefix(rest, "$YIELDT{") || strings.HasPrefix(rest, "$YFROMT{") {
 			// explicitly instantiated API call: Yield[T](e) / YieldFrom[T](e)
 			isFrom := strings.HasPrefix(rest, "$YFROMT{")
